@@ -11,9 +11,6 @@ Require Import PSO.Abstract.Model PSO.Abstract.Lib PSO.Abstract.Kstep PSO.Abstra
 Definition canon_ok (ll : nat -> list entry) (l : list entry) : Prop :=
   forall p e, nth_error l p = Some e -> firstn (S p) l = firstn (S p) (ll (eterm e)).
 
-Definition sorted (l : list entry) : Prop :=
-  forall p q e e', p <= q -> nth_error l p = Some e -> nth_error l q = Some e' -> eterm e <= eterm e'.
-
 (* l and L match: same term at a position implies equal prefixes up to there *)
 Definition lmatch (l L : list entry) : Prop :=
   forall q e e', nth_error l q = Some e -> nth_error L q = Some e' -> eterm e = eterm e' ->
@@ -54,14 +51,6 @@ Proof.
   apply (St (eterm e') p q); auto.
   - rewrite <- (firstn_eq_nth _ _ (S q) p E) by lia. auto.
   - rewrite <- (firstn_eq_nth _ _ (S q) q E) by lia. auto.
-Qed.
-
-Lemma sorted_snoc l e : sorted l -> (forall x, In x l -> eterm x <= eterm e) -> sorted (l ++ [e]).
-Proof.
-  intros St B p q x y L Hp Hq.
-  apply nth_error_snoc_cases in Hp as [[Lp Hp]|[-> ->]]; apply nth_error_snoc_cases in Hq as [[Lq Hq]|[-> ->]];
-    eauto; try lia.
-  apply B. eapply nth_error_In; eauto.
 Qed.
 
 Lemma window_eq L pi es : window L pi es -> firstn (length es) (skipn pi L) = es.
